@@ -169,7 +169,7 @@ def directed_case(ctx, rng, idx):
     from hypergraphx.representations import projections as pr
 
     cfg = history.Cfg(rng, "D")
-    cfg.invalid_rate = 0
+    cfg.invalid_rate = 0.1  # refused calls are part of the build: they must leave no trace in what is measured
     cfg.avoid = {"copy", "clear"}
     cfg.n_ops = rng.randint(5, 25)
     try:
